@@ -714,10 +714,7 @@ fn exec_inner<const N: usize, P: Pad>(buf: &mut Buf<N, P>, op: &Op, env: &mut En
                 let mut d = cb!(buf.drain(rr));
                 env.aux.push((cb!(d.len()), cb!(d.size_hint()).0, cb!(d.size_hint()).1));
                 for s in script {
-                    let x = cb!(match s {
-                        Step::F => d.next(),
-                        Step::B => d.next_back(),
-                    });
+                    let x = cb!(apply_step(&mut d, *s));
                     match x {
                         Some(t) => {
                             ids.push(t.peek("drain.yield").0);
@@ -1789,11 +1786,11 @@ fn judge_extras<const N: usize, P: Pad>(
         Op::Drain(r, script, _) => {
             if let Some((a, b)) = model::resolve_range(*r, before.len()) {
                 // len at every step
-                let mut rem = b - a;
-                let mut want = vec![rem];
-                for _ in script {
-                    rem = rem.saturating_sub(1);
-                    want.push(rem);
+                let mut w = Win { lo: a, hi: b };
+                let mut want = vec![w.len()];
+                for s in script {
+                    w.step(*s);
+                    want.push(w.len());
                 }
                 let got: Vec<usize> = env.aux.iter().map(|x| x.0).collect();
                 let hints_ok = env.aux.iter().all(|x| x.1 == x.0 && x.2 == Some(x.0));
